@@ -243,7 +243,7 @@ def replay_session_plan(c, which, plan):
                     if sg not in c.viol_sigs:
                         c.viol_sigs[sg] = 0
                         p = os.path.join(OUT, c.prop, "splan_%s_%d.json" % (which, len(c.violations)))
-                        json.dump({"behaviour": {"steps": pl["steps"][:i + 1], "expect": pl["expect"][:i + 1]}, "got": g["got"][:i + 1]}, open(p, "w"))
+                        json.dump({"property": c.prop, "build": which, "behaviour": {"steps": pl["steps"][:i + 1], "expect": pl["expect"][:i + 1]}, "got": g["got"][:i + 1]}, open(p, "w"))
                         c.violations.append(("[%s build] SessionPlan behaviour %d step %d (%s form %s): implementation %s, specification %s"
                                              % (which, g["line"], i, st["op"], st.get("form"), json.dumps(got)[:200], json.dumps(ex)[:200]), p, sg))
                     c.viol_sigs[sg] += 1
